@@ -15,7 +15,8 @@ struct St {
     int readers = 0, writers = 0, acquired = 0, released = 0;
     mvprog::Prog prog; int interrupts[16] = {0}; bool inlock[16] = {false}; std::string log;
     std::vector<uint64_t> free_times; uint64_t last_writer_acq = 0;    // virtual times: lock became completely free / a writer was admitted
-    int writers_waiting = 0; std::vector<int> ww_at_free;              // writers inside lock() when the lock became free
+    int writers_waiting = 0; std::vector<int> ww_at_free;
+    uint64_t seq = 0; std::vector<uint64_t> free_seq;                  // logical order of events (several events share one virtual instant)              // writers inside lock() when the lock became free
 };
 static St* G;
 
@@ -25,13 +26,14 @@ static void body(mvprog::PT& p) {
         char op = p.ops[i];
         if (op == 'y') { thread_yield(); continue; }
         if (op == 'p') { int npad = pmc_choose(3, PMC_PROG, 0, "pad yields"); for (int kk = 0; kk < npad; kk++) thread_yield(); continue; }   // every arrival order on one vCPU
-        if (op == 'i') { int t = p.ops[++i] - '0'; if (G->prog.pts[t].th) { G->interrupts[t]++; thread_interrupt(G->prog.pts[t].th, EINTR); } p.result += "i"; continue; }
+        if (op == 'q') { if (pmc_choose(2, PMC_PROG, 0, "pad yield")) thread_yield(); continue; }
+        if (op == 'i') { int t = p.ops[++i] - '0'; if (t < (int)G->prog.pts.size() && G->prog.pts[t].th && !G->prog.pts[t].done) { G->interrupts[t]++; thread_interrupt(G->prog.pts[t].th, EINTR); } p.result += "i"; continue; }
         bool hold = (op == 'h');              // h: blocking read lock, held for 200 us of virtual time
         if (hold) op = 'R';
         bool wr = (op == 'W' || op == 'w' || op == 'x');
         bool timed = (op == 'r' || op == 'w'), tryl = (op == 's' || op == 'x');
         int mode = wr ? WLOCK : RLOCK;
-        uint64_t t0 = mv_now(); errno = 0; int r;
+        uint64_t t0 = mv_now(); uint64_t s0 = ++G->seq; errno = 0; int r;
         G->inlock[me] = true; if (wr && !tryl) G->writers_waiting++;
         if (timed) mv_register_deadline(mv_now() + TMO);
         if (G->q) r = tryl ? G->qrw.try_lock(mode) : G->qrw.lock(mode, timed ? Timeout(TMO) : Timeout());
@@ -46,7 +48,7 @@ static void body(mvprog::PT& p) {
                 // became free must not be admitted only after another reader's whole (200 us) hold
                 for (size_t fi = 0; fi < G->free_times.size(); fi++) {
                     uint64_t F = G->free_times[fi];
-                    if (t0 <= F && mv_now() >= F + 150 && G->last_writer_acq < F && G->ww_at_free[fi] == 0)
+                    if (s0 < G->free_seq[fi] && mv_now() >= F + 150 && G->last_writer_acq < F && G->ww_at_free[fi] == 0)
                         pmc_violation("reader-admitted-late", "reader %d waited since +%llu us, the lock became free at +%llu us with no writer waiting, but it was admitted only at +%llu us (readers admitted one at a time?)",
                                       me, (unsigned long long)(t0 - MV_T0), (unsigned long long)(F - MV_T0), (unsigned long long)(mv_now() - MV_T0));
                 }
@@ -58,7 +60,7 @@ static void body(mvprog::PT& p) {
             mv_yield("holding 2");
             if (hold) thread_usleep(200);
             if (wr) G->writers--; else G->readers--;
-            if (!G->writers && !G->readers) { G->free_times.push_back(mv_now()); G->ww_at_free.push_back(G->writers_waiting); }
+            if (!G->writers && !G->readers) { G->free_times.push_back(mv_now()); G->free_seq.push_back(++G->seq); G->ww_at_free.push_back(G->writers_waiting); }
             G->released++;
             int u = G->q ? G->qrw.unlock() : G->rw.unlock();
             if (u != 0) pmc_violation("unlock-failed", "unlock returned %d", u);
@@ -86,7 +88,9 @@ void pmc_run(const char* config) {
     st.q = config[0] == 'q';
     if (sscanf(config + 2, "%127[^:]:%23s", prog, extra) < 1) pmc_broken("bad config");
     st.rw.mtx.retries = 2;      // rwlock's internal mutex spins through 100 yield-retries by default: 2 keeps the same code path tractable
-    st.prog.parse(prog);
+    pmc_window(1);     // generated programs are explorer choices
+    if (st.prog.parse_or_generate(prog, {"R", "W", "r", "w", "h", "i0", "i1"})) st.log = st.prog.generated + " ";
+    pmc_window(0);
     st.prog.early_join = strstr(extra, "early") != nullptr;
     pmc_window(0);
     mv_init(); mvp::use_fast_stacks(true);
@@ -115,6 +119,11 @@ static const PmcConfig CFG[] = {
     {"q:R,R|W",        3, {1,2}, {0,0}, {0,0}, {0,0}, ""},
     {"r:W,R|R",        3, {1,2}, {0,0}, {0,0}, {0,0}, ""},
     {"q:W|R|R",        3, {1,2}, {0,0}, {0,0}, {0,0}, "writer unlock must wake all waiting readers"},
+    {"q:pW,pR,pw,ph",  3, {0,0}, {0,0}, {0,0}, {0,0}, "writer holds, reader and timed writer queue, a late reader slips in, the writer gives up: the last reader must wake the queued reader"},
+    {"q:gen4x1",       3, {0,0}, {0,0}, {0,0}, {0,0}, "generated: every 4-thread program with one op each from {R,W,r,w,h,i0,i1}, every arrival order"},
+    {"r:gen4x1",       3, {0,0}, {0,0}, {0,0}, {0,0}, ""},
+    {"q:gen3x2",       2, {0,0}, {0,0}, {0,0}, {0,0}, "generated: 3 threads x up to 2 ops"},
+    {"r:gen3x2",       2, {0,0}, {0,0}, {0,0}, {0,0}, ""},
     {"q:W|R:tso",      3, {1,2}, {0,0}, {1,1}, {2,3}, "x86-TSO store buffers (qrwlock is built on atomics only)"},
     {"q:W|W:tso",      3, {1,2}, {0,0}, {1,1}, {2,3}, ""},
     {"q:R,R|W:tso",    2, {1,1}, {0,0}, {1,1}, {2,2}, ""},
